@@ -389,7 +389,7 @@ def round_trip(rng, text, res, want_constraints):
             a, b = verdicts(sp.constraints, t1), verdicts(sp2.constraints, t2)
             res.bump("verdict_vectors_compared")
             compared += 1
-            if all(x is True for x in a) != all(x is True for x in b):
+            if all(x is True for x in a) != all(x is True for x in b) or (len(a) == len(b) and [x is True for x in a] != [x is True for x in b]):
                 diffs.append({"word": repr(word)[:200], "original": [str(x) for x in a], "reread": [str(x) for x in b],
                               "original_constraints": [c.format_as_spec() for c in sp.constraints],
                               "reread_constraints": [c.format_as_spec() for c in sp2.constraints]})
@@ -409,6 +409,7 @@ def gen_worker(args):
     rng = random.Random(seed * 577 + 1)
     out = []
     tries = 0
+    sys_done = 0
     while len(out) < n and tries < n * 5:
         tries += 1
         r = rng.random()
@@ -419,6 +420,14 @@ def gen_worker(args):
             spec, nts, judge, texts = c02.make_spec(rng)
             if rng.random() < 0.4:
                 texts = texts + [extra_formula(rng, nts)]
+            if seed % 1000 < 3 and sys_done < 2:
+                # every form of item / slice selector (open, zero, positive and negative bounds), systematically
+                bs = ["", "0", "1", "-1", "2"]
+                k0 = (seed % 1000) * 2 + sys_done
+                sys_done += 1
+                combos = [(lo, hi) for lo in bs for hi in bs]
+                texts = [f"len(str({nts[(k0 + j) % len(nts)]}[{lo}:{hi}])) {'==' if j % 2 else '>'} 0" for j, (lo, hi) in enumerate(combos) if j % 6 == k0 % 6 or hi == "0"]
+                res.bump("systematic_slice_selectors")
             text, kind, want_k = spec + "".join(f"where {t}\n" for t in texts), "constraints", True
         elif r < 0.88:
             text, kind, want_k = rng.choice(COMPUTED), "computed_repetitions", True
